@@ -1154,3 +1154,65 @@ package base
 //@   ensures prefix: forall qi :: 0 <= qi && qi < old(len(as.ArgList)) ==> as.ArgList[qi] == old(as.ArgList[qi])
 //@   modifies as.ArgList, elems(as.ArgList)
 
+// constants (C01): the stored value is the accepted one, with its kind
+//@ func (*Constant).AcceptInteger
+//@   props C01
+//@   arith int unchecked
+//@   requires cons != nil
+//@   ensures [C01] stored: result == nil && rv_kind(cons.ConstantValue) == 6 && rv_int(cons.ConstantValue) == i64
+//@   modifies cons.ConstantValue
+//@   nopanic
+
+//@ func (*Constant).AcceptId
+//@   props C01
+//@   arith int unchecked
+//@   requires cons != nil
+//@   ensures [C01] stored: result == nil && rv_kind(cons.ConstantValue) == 6 && rv_int(cons.ConstantValue) == id
+//@   modifies cons.ConstantValue
+//@   nopanic
+
+//@ func (*Constant).AcceptSalience
+//@   props C01
+//@   arith int unchecked
+//@   requires cons != nil
+//@   ensures [C01] stored: result == nil && rv_kind(cons.ConstantValue) == 6 && rv_int(cons.ConstantValue) == sal
+//@   modifies cons.ConstantValue
+//@   nopanic
+
+//@ func (*Constant).AcceptString
+//@   props C01
+//@   requires cons != nil
+//@   ensures [C01] stored: result == nil && rv_kind(cons.ConstantValue) == 24 && rv_str(cons.ConstantValue) == str
+//@   modifies cons.ConstantValue
+//@   nopanic
+
+//@ func (*Constant).AcceptName
+//@   props C01
+//@   requires cons != nil
+//@   ensures [C01] stored: result == nil && rv_kind(cons.ConstantValue) == 24 && rv_str(cons.ConstantValue) == name
+//@   modifies cons.ConstantValue
+//@   nopanic
+
+//@ func (*Constant).AcceptDesc
+//@   props C01
+//@   requires cons != nil
+//@   ensures [C01] stored: result == nil && rv_kind(cons.ConstantValue) == 24 && rv_str(cons.ConstantValue) == desc
+//@   modifies cons.ConstantValue
+//@   nopanic
+
+// rule header (C04, C08, C16): the first accepted string is the name, the second the description; the integer is the salience
+//@ func (*RuleEntity).AcceptString
+//@   props C08 C16 C01
+//@   requires r != nil
+//@   ensures name: old(r.RuleName) == "" ==> result == nil && r.RuleName == s && r.RuleDescription == old(r.RuleDescription)
+//@   ensures description: old(r.RuleName) != "" && old(r.RuleDescription) == "" ==> result == nil && r.RuleDescription == s && r.RuleName == old(r.RuleName)
+//@   ensures full: old(r.RuleName) != "" && old(r.RuleDescription) != "" ==> result != nil && r.RuleName == old(r.RuleName) && r.RuleDescription == old(r.RuleDescription)
+//@   modifies r.RuleName, r.RuleDescription
+//@   nopanic
+
+//@ func (*RuleEntity).AcceptInteger
+//@   props C08 C16 C04
+//@   requires r != nil
+//@   ensures result == nil && r.Salience == val
+//@   modifies r.Salience
+//@   nopanic
